@@ -177,3 +177,7 @@ pub fn run_pipeline_captured(sh: &mut Shell, line: &str) -> Result<CommandResult
     let (_t, cr) = crate::core::run_pipeline(sh, &cl, false, true, false);
     Ok(cr)
 }
+
+pub fn run_calculator(line: &str) -> Result<String, String> {
+    crate::core::run_calculator(line).map_err(|e| e.to_string())
+}
